@@ -581,7 +581,7 @@ type coordLedMember struct {
 	HasSync     bool      // it has a successful sync reply ...
 	SyncGen     int32     // ... in this generation ...
 	SyncAssign  map[string][]int32
-	FoSinceJoin bool // a failover happened after its last join
+	FoSinceJoin bool  // a failover happened after its last join
 	ResubGen    int32 // generation in which it re-joined with a different subscription and no new generation was started (0 = none)
 }
 
